@@ -53,6 +53,7 @@ func serialOf(class string) *big.Int {
 var allSerialClasses = []string{"z0", "s1", "s255", "s256", "s2e64", "s2e159"}
 
 type certBody struct {
+	Issuer        string // model id of the account in the ISSUER name (= Owner when self-issued)
 	Owner, Serial string // model ids
 	Body          int
 	CertPEM       []byte
@@ -64,7 +65,8 @@ type certBody struct {
 type universe struct {
 	Owners  []string
 	Serials []string
-	Bodies  int
+	Bodies  int      // self-issued bodies 1..Bodies for every (owner, serial)
+	Foreign []string // serial classes that also have body Bodies+1: subject = owner, ISSUER = another owner
 	addr    map[string]sdk.AccAddress
 	certs   map[string]*certBody // key owner|serial|body
 	byPEM   map[string]*certBody
@@ -73,14 +75,24 @@ type universe struct {
 
 var authVersionOID = asn1.ObjectIdentifier{2, 23, 133, 2, 6}
 
-func newUniverse(owners, serials []string, bodies int) (*universe, error) {
-	return newUniverseAt(owners, serials, bodies, nil)
+func newUniverse(owners, serials []string, bodies int, foreign []string) (*universe, error) {
+	return newUniverseAt(owners, serials, bodies, foreign, nil)
+}
+
+// issuerOf: who issues the not-self-issued certificate whose subject is owner o (the next owner, cyclically).
+func (u *universe) issuerOf(o string) string {
+	for i, x := range u.Owners {
+		if x == o {
+			return u.Owners[(i+1)%len(u.Owners)]
+		}
+	}
+	return o
 }
 
 // newUniverseAt: addrs, when given, replaces the fixed edge-of-keyspace addresses (signed-transaction mode
 // needs addresses derived from real keys).
-func newUniverseAt(owners, serials []string, bodies int, addrs map[string]sdk.AccAddress) (*universe, error) {
-	u := &universe{Owners: owners, Serials: serials, Bodies: bodies, addr: map[string]sdk.AccAddress{},
+func newUniverseAt(owners, serials []string, bodies int, foreign []string, addrs map[string]sdk.AccAddress) (*universe, error) {
+	u := &universe{Owners: owners, Serials: serials, Bodies: bodies, Foreign: foreign, addr: map[string]sdk.AccAddress{},
 		certs: map[string]*certBody{}, byPEM: map[string]*certBody{}, bySer: map[string]string{}}
 	for _, o := range owners {
 		if a, ok := addrs[o]; ok {
@@ -103,14 +115,29 @@ func newUniverseAt(owners, serials []string, bodies int, addrs map[string]sdk.Ac
 	for _, o := range owners {
 		for _, s := range serials {
 			for b := 1; b <= bodies; b++ {
-				cb, err := makeCert(u.addr[o], serialOf(s))
+				cb, err := makeCert(u.addr[o], u.addr[o], serialOf(s))
 				if err != nil {
 					return nil, fmt.Errorf("generating certificate %s/%s/%d: %w", o, s, b, err)
 				}
-				cb.Owner, cb.Serial, cb.Body = o, s, b
+				cb.Owner, cb.Serial, cb.Body, cb.Issuer = o, s, b, o
 				u.certs[fmt.Sprintf("%s|%s|%d", o, s, b)] = cb
 				u.byPEM[string(cb.CertPEM)] = cb
 			}
+		}
+	}
+	for _, s := range foreign {
+		if serialOf(s) == nil || u.bySer[serialOf(s).String()] != s {
+			return nil, fmt.Errorf("foreign-issued serial class %q is not one of the run's classes", s)
+		}
+		for _, o := range owners {
+			iss := u.issuerOf(o)
+			cb, err := makeCert(u.addr[o], u.addr[iss], serialOf(s))
+			if err != nil {
+				return nil, fmt.Errorf("generating certificate %s/%s issued by %s: %w", o, s, iss, err)
+			}
+			cb.Owner, cb.Serial, cb.Body, cb.Issuer = o, s, bodies+1, iss
+			u.certs[fmt.Sprintf("%s|%s|%d", o, s, bodies+1)] = cb
+			u.byPEM[string(cb.CertPEM)] = cb
 		}
 	}
 	return u, nil
@@ -118,9 +145,10 @@ func newUniverseAt(owners, serials []string, bodies int, addrs map[string]sdk.Ac
 
 func (u *universe) cert(o, s string, b int) *certBody { return u.certs[fmt.Sprintf("%s|%s|%d", o, s, b)] }
 
-// makeCert builds a real self-signed client certificate the way testutil.Certificate / `akash tx cert create`
-// do, with the given serial number and CommonName = bech32(owner).
-func makeCert(owner sdk.AccAddress, serial *big.Int) (*certBody, error) {
+// makeCert builds a real client certificate the way testutil.Certificate / `akash tx cert create` do, with
+// the given serial number and subject CommonName = bech32(owner). With issuer = owner it is self-signed; else it
+// is issued (signed) by a parent whose subject CommonName = bech32(issuer), with the parent's own key.
+func makeCert(owner, issuer sdk.AccAddress, serial *big.Int) (*certBody, error) {
 	priv, err := ecdsa.GenerateKey(elliptic.P256(), rand.Reader)
 	if err != nil {
 		return nil, err
@@ -139,7 +167,27 @@ func makeCert(owner sdk.AccAddress, serial *big.Int) (*certBody, error) {
 		ExtKeyUsage:           []x509.ExtKeyUsage{x509.ExtKeyUsageClientAuth},
 		BasicConstraintsValid: true,
 	}
-	der, err := x509.CreateCertificate(rand.Reader, &tpl, &tpl, priv.Public(), priv)
+	parent, signKey := &tpl, priv
+	if !issuer.Equals(owner) {
+		// not self-issued: a parent certificate whose Subject names the issuer, signing with its own key
+		signKey, err = ecdsa.GenerateKey(elliptic.P256(), rand.Reader)
+		if err != nil {
+			return nil, err
+		}
+		parent = &x509.Certificate{
+			SerialNumber: big.NewInt(7),
+			Subject: pkix.Name{
+				CommonName: issuer.String(),
+				ExtraNames: []pkix.AttributeTypeAndValue{{Type: authVersionOID, Value: "v0.0.1"}},
+			},
+			NotBefore:             nbf,
+			NotAfter:              nbf.Add(365 * 24 * time.Hour),
+			KeyUsage:              x509.KeyUsageCertSign,
+			IsCA:                  true,
+			BasicConstraintsValid: true,
+		}
+	}
+	der, err := x509.CreateCertificate(rand.Reader, &tpl, parent, priv.Public(), signKey)
 	if err != nil {
 		return nil, err
 	}
@@ -150,6 +198,9 @@ func makeCert(owner sdk.AccAddress, serial *big.Int) (*certBody, error) {
 	}
 	if parsed.SerialNumber.Cmp(serial) != 0 {
 		return nil, fmt.Errorf("serial round trip: made %s parsed %s", serial, parsed.SerialNumber)
+	}
+	if parsed.Subject.CommonName != owner.String() || parsed.Issuer.CommonName != issuer.String() {
+		return nil, fmt.Errorf("names round trip: subject %q issuer %q", parsed.Subject.CommonName, parsed.Issuer.CommonName)
 	}
 	pub, err := x509.MarshalPKIXPublicKey(priv.Public())
 	if err != nil {
@@ -195,6 +246,11 @@ func (u *universe) info() map[string]interface{} {
 		n := serialOf(s)
 		serials[s] = map[string]string{"dec": n.String(), "keysuffix": hex.EncodeToString(n.Bytes())}
 	}
+	issuers := map[string]string{}
+	for _, o := range u.Owners {
+		issuers[o] = u.issuerOf(o)
+	}
 	return map[string]interface{}{"ev": "info", "owners": owners, "serials": serials, "bodies": u.Bodies,
+		"foreign_serials": u.Foreign, "foreign_body": u.Bodies + 1, "foreign_issuer_of": issuers,
 		"keyorder": u.keyOrder()}
 }
